@@ -63,11 +63,12 @@ def tag_rec(self, e, args, kwargs):
 
 
 def tag_setup(I, selfv, expr):
-    """self.subexpr_histogram is an arbitrary dict (symbolic content)."""
+    """self.subexpr_histogram is an arbitrary dict of occurrence counts (symbolic content; its values are integers - the type the
+    walk mapper fills it with; without this precondition `not n <= 1` and `n > 1` would be unrelated facts about an opaque value)."""
     import z3
     from pyvc import smt
     from pyvc.values import SymDict
-    selfv.attrs["subexpr_histogram"] = SymDict(z3.Const("histogram", smt.V), None, "histogram")
+    selfv.attrs["subexpr_histogram"] = SymDict(z3.Const("histogram", smt.V), None, "histogram", value_kind="int")
 
 
 def tag_post(self, expr, args, kwargs, result):
